@@ -195,6 +195,7 @@ func scenBlock(rng *rand.Rand, tr *sim.Trace, seg int, events int) {
 				continue
 			}
 			var tried uint32
+			h.keepQuiet() // before the traversal starts: afterwards every outgoing query must reach respond()
 			go func() {
 				defer close(done)
 				if kind == 0 {
@@ -212,7 +213,6 @@ func scenBlock(rng *rand.Rand, tr *sim.Trace, seg int, events int) {
 				}
 			}()
 			silent := map[string]bool{}
-			h.keepQuiet()
 			written := h.respond(done, pool, silent)
 			<-done
 			h.flush(false)
